@@ -1118,6 +1118,25 @@ def np_sum(ex, v, **kw):
     if isinstance(v, SeqV):
         if ops.seq_len(v) == 0 and isinstance(ops.seq_len(v), int):
             return FloatQ(0)
+        if v.is_concrete_len() and any(isinstance(e, (SeqV, Arr2V, Arr0V)) for e in v.concrete_items()):
+            # numpy.sum without axis adds up every element of the (nested) array
+            used("numpy.sum(nested) == sum over all elements")
+            flat = []
+            for e in v.concrete_items():
+                if isinstance(e, SeqV) and e.is_concrete_len():
+                    if any(isinstance(x, (SeqV, Arr2V)) for x in e.concrete_items()):
+                        raise Unsupported("numpy.sum of a deeply nested value")
+                    flat.extend(e.concrete_items())
+                elif isinstance(e, Arr0V):
+                    flat.append(e.v)
+                else:
+                    raise Unsupported("numpy.sum of a nested value of symbolic shape")
+            lens = {len(e.concrete_items()) for e in v.concrete_items() if isinstance(e, SeqV)}
+            if len(lens) > 1 or any(not isinstance(e, SeqV) for e in v.concrete_items()):
+                raise Unsupported("numpy.sum of a ragged nested value")
+            if not flat:
+                return FloatQ(0)
+            return seq_sum(ex, SeqV.of("array", flat))
         return seq_sum(ex, v)
     if isinstance(v, Arr0V):
         return v.v
@@ -1262,6 +1281,68 @@ def np_full(ex, shape, value, dtype=None):
     raise Unsupported("numpy.full shape")
 
 
+
+def np_linspace(ex, a, b, n):
+    """numpy.linspace(a, b, n) for a concrete int n: a + i*(b-a)/(n-1) (n > 1), [a] (n == 1), [] (n == 0)"""
+    if isinstance(a, Arr0V):
+        a = a.v
+    if isinstance(b, Arr0V):
+        b = b.v
+    if not isinstance(n, int) or isinstance(n, bool):
+        raise Unsupported("numpy.linspace with a symbolic or non-int count")
+    if n < 0:
+        ops._raise("ValueError")
+    used("numpy.linspace(a, b, n)[i] == a + i*(b - a)/(n - 1) (real arithmetic)")
+    if n == 1:
+        return SeqV.of("array", [ops.binop(ex, "*", a, FloatQ(1))])
+    step = ops.binop(ex, "/", ops.binop(ex, "-", b, a), n - 1) if n > 1 else None
+    return SeqV.of("array", [ops.binop(ex, "+", a, ops.binop(ex, "*", i, step)) for i in range(n)])
+
+
+_EXP = z3.Function("np_exp", z3.RealSort(), z3.RealSort())
+_LOG = z3.Function("np_log", z3.RealSort(), z3.RealSort())
+
+
+def np_explog(which):
+    fn = _EXP if which == "exp" else _LOG
+
+    def f(ex, x):
+        if isinstance(x, SeqV):
+            return ops.seq_map(ex, x, lambda e: f(ex, e), "array")
+        if isinstance(x, Arr0V):
+            x = x.v
+        if isinstance(x, float) and ops.special_float(x):
+            raise Unsupported(f"numpy.{which} of nan/inf")
+        used(f"numpy.{which}: uninterpreted real function (only functional consistency is assumed)")
+        return Sym(fn(term(x, "real")), "real")
+
+    return f
+
+
+def np_minmax(which):
+    inner = b_minmax(which)
+
+    def f(ex, v, **kw):
+        if kw:
+            raise Unsupported(f"numpy.{which} with keywords")
+        if isinstance(v, Arr0V):
+            return v.v
+        if isinstance(v, Arr2V) and isinstance(v.rows, int) and isinstance(v.cols, int):
+            v = SeqV.of("list", [v.fn(i, j) for i in range(v.rows) for j in range(v.cols)])
+        if isinstance(v, SeqV) and v.is_concrete_len():
+            flat = []
+            for e in v.concrete_items():
+                if isinstance(e, SeqV):
+                    flat.extend(e.concrete_items())
+                else:
+                    flat.append(e)
+            if not flat:
+                ops._raise("ValueError")
+            return inner(ex, SeqV.of("list", flat))
+        raise Unsupported(f"numpy.{which} of this value")
+
+    return f
+
 BUILTINS = {
     "len": b_len,
     "max": b_minmax("max"),
@@ -1307,6 +1388,11 @@ BUILTINS = {
     "numpy.zeros": np_zeros,
     "numpy.zeros_like": np_zeros_like,
     "numpy.full": np_full,
+    "numpy.linspace": np_linspace,
+    "numpy.exp": np_explog("exp"),
+    "numpy.log": np_explog("log"),
+    "numpy.min": np_minmax("min"),
+    "numpy.max": np_minmax("max"),
     "re.compile": lambda ex, pattern, *a: RegexV(pattern),
     "collections.defaultdict": lambda ex, factory=None: _defaultdict(ex, factory),
     "numpy.argsort": lambda ex, v, **kw: np_argsort(ex, v),
@@ -1913,6 +1999,15 @@ def value_attr(ex, v, attr):
         if isinstance(v, SeqV) and v.kind == "array":
             n = ops.seq_len(v)
             return SeqV.of("tuple", [n if isinstance(n, int) else Sym(n, "int")])
+    if attr == "T":
+        if isinstance(v, Arr2V):
+            used("ndarray.T of a 2-D array: element (i, j) is element (j, i) of the original (a view)")
+            src = v
+            return Arr2V(v.cols, v.rows, lambda i, j: src.fn(j, i), v.dtype)
+        if isinstance(v, (Arr0V,)) or (isinstance(v, SeqV) and v.kind == "array"):
+            return v
+    if attr in ("T", "size", "ndim", "dtype", "flat", "real", "imag") and (isinstance(v, (Arr2V, Arr0V)) or (isinstance(v, SeqV) and v.kind == "array")):
+        raise Unsupported(f"ndarray.{attr}")
     return NOATTR
 
 
